@@ -251,12 +251,16 @@ class Refresher(Module):
             # ZQCS Timer ---------------------------------------------------------------------------
             zqcs_timer = RefreshTimer(int(clk_freq/zqcs_freq))
             self.submodules.zqcs_timer = zqcs_timer
-            self.comb += wants_zqcs.eq(zqcs_timer.done)
 
             # ZQCS Executer ------------------------------------------------------------------------
             zqcs_executer = ZQCSExecuter(cmd, settings.timing.tRP, settings.timing.tZQCS)
             self.submodules.zqs_executer = zqcs_executer
             self.comb += zqcs_timer.wait.eq(~zqcs_executer.done)
+
+            # The timer's done is a one-cycle pulse: hold the request until the next refresh starts the calibration.
+            zqcs_pending = Signal()
+            self.sync += If(zqcs_executer.start, zqcs_pending.eq(0)).Elif(zqcs_timer.done, zqcs_pending.eq(1))
+            self.comb += wants_zqcs.eq(zqcs_timer.done | zqcs_pending)
 
         # Refresh FSM ------------------------------------------------------------------------------
         self.submodules.fsm = fsm = FSM()
